@@ -442,8 +442,12 @@ Record report := {
   r_obs : list Z * list Z;            (* element values of the two objects after the step *)
   r_ok : bool;                        (* every event of the step legal *)
   r_toks : list (loc * ptok);         (* the projection of the step *)
+  r_tmp : nat;                        (* objects outside the two persistent storages alive after the step *)
   r_raw : list event                  (* the raw events (diagnostics only) *)
 }.
+
+Definition persistent (l : loc) : bool := match l with Slot c _ => c <? 2 | _ => false end.
+Definition tmp_alive (a : amap) : nat := length (filter (fun l => negb (persistent l)) (alive_locs a)).
 
 Fixpoint reports (fl : bool) (cap : nat) (iv : bool) (s : nat * nat) (m : vmem) (a : amap) (ops : list op)
   : list report * (nat * nat) * amap :=
@@ -456,7 +460,7 @@ Fixpoint reports (fl : bool) (cap : nat) (iv : bool) (s : nat * nat) (m : vmem) 
       let a' := snd (fst mon) in
       let mk (d f : bool) (s' : nat * nat) :=
         {| r_done := d; r_fuel := f; r_obs := (elems m' 0 (fst s'), elems m' 1 (snd s'));
-           r_ok := fst (fst mon); r_toks := snd mon; r_raw := fst g |} in
+           r_ok := fst (fst mon); r_toks := snd mon; r_tmp := tmp_alive a'; r_raw := fst g |} in
       match snd g with
       | Done s' => let r := reports fl cap iv s' m' a' rest in (mk true false s' :: fst (fst r), snd (fst r), snd r)
       | Stop => ([mk false false s], s, a')
@@ -470,7 +474,8 @@ Definition run_case (fl : bool) (cap : nat) (iv : bool) (ops : list op) : list r
   let s := snd (fst r) in
   let fin := final_events s in
   let mon := monitor (snd r) fin in
-  let frep := {| r_done := true; r_fuel := false; r_obs := ([], []); r_ok := fst (fst mon); r_toks := snd mon; r_raw := fin |} in
+  let frep := {| r_done := true; r_fuel := false; r_obs := ([], []); r_ok := fst (fst mon); r_toks := snd mon;
+                 r_tmp := tmp_alive (snd (fst mon)); r_raw := fin |} in
   (fst (fst r), frep,
    (forallb r_ok (fst (fst r)) && fst (fst mon), alive_count (snd (fst mon)))).
 
